@@ -8,6 +8,7 @@ import (
 	"crypto/ecdsa"
 	"crypto/elliptic"
 	"encoding/asn1"
+	"errors"
 	"fmt"
 	"math/big"
 	"net/http"
@@ -228,6 +229,7 @@ func check(c Case, r *vh.R) {
 		r.Class("mutated-after-parsing")
 	}
 	changed := false // does the mutation change canon / signed parameter / key / put t outside the window?
+	noCert := false  // the certificate fetch fails or returns nothing that holds a leaf certificate
 	rejectedAtRead := false
 
 	switch {
@@ -411,6 +413,7 @@ func check(c Case, r *vh.R) {
 		target.SignatureHeaderValue = hv
 	case m.Class == "fetcher":
 		var b []byte
+		r.Class("fetcher:" + m.Variant)
 		switch m.Variant {
 		case "other-key":
 			b = chainCBOR([]int{m.Fixture, -1})
@@ -425,8 +428,25 @@ func check(c Case, r *vh.R) {
 			pl, _ := structuredheader.ParseParameterisedList(target.SignatureHeaderValue)
 			pl[0].Params["cert-sha256"] = gen.CertSha256(fetchedLeaf)
 			target.SignatureHeaderValue, _ = pl.String()
+		case "error", "empty", "garbage", "truncated", "only-issuer":
+			// the fetch fails, or what it returns holds no leaf certificate for this signature:
+			// there is no key to verify under, so nothing may be accepted (a verifier must not
+			// treat a failed secondary step as "nothing to check")
+			noCert = true
+			switch m.Variant {
+			case "garbage":
+				b = gen.Filler(16+m.Fixture*37, uint64(m.Fixture)+1)
+			case "truncated":
+				full := chainCBOR([]int{s.Fixture, -1})
+				b = full[:(1+m.Fixture*131)%len(full)]
+			case "only-issuer":
+				b = chainCBOR([]int{-1})
+			}
 		}
 		fetch = func(string) ([]byte, error) { return b, nil }
+		if m.Variant == "error" {
+			fetch = func(string) ([]byte, error) { return nil, errors.New("injected: certificate fetch failed") }
+		}
 		changed = true
 	case m.Class == "time":
 	default:
@@ -452,6 +472,10 @@ func check(c Case, r *vh.R) {
 	}
 	got, ok := sxgkit.Verify(target, sec, nsec, fetch)
 	sxgkit.Disturb() // the returned payload is judged after unrelated verifications
+	if ok && noCert {
+		r.Failf("accepted-without-certificate", "verification succeeded although the certificate fetch gave no usable leaf certificate (mutation %+v)", m)
+		return
+	}
 	if !ok {
 		r.Class("rejected-at-verify")
 		if changed {
@@ -641,7 +665,7 @@ func genMut(t *rapid.T, s *sxgkit.Spec) (Mut, string) {
 			m.Value = rapid.SampledFrom([]string{"sig", "integrity", "cert-url", "cert-sha256", "validity-url", "date", "expires"}).Draw(t, "dropped")
 		}
 	case cls == "fetcher":
-		m.Variant = rapid.SampledFrom([]string{"other-key", "swapped", "other-key+sha"}).Draw(t, "variant")
+		m.Variant = rapid.SampledFrom([]string{"other-key", "swapped", "other-key+sha", "error", "empty", "garbage", "truncated", "only-issuer"}).Draw(t, "variant")
 		cands := []int{2, 3, 1, 4}
 		m.Fixture = rapid.SampledFrom(cands).Draw(t, "fixture")
 		if m.Fixture == s.Fixture {
@@ -727,6 +751,22 @@ func TestFieldSweep(t *testing.T) {
 					if !prop.One(t, Case{Spec: with, Mut: m, Time: "mid", Parsed: parsed}) {
 						return
 					}
+				}
+			}
+		}
+	}
+	// the certificate fetch: every way of not delivering the signer's certificate x version x
+	// object built / object parsed x one or several copies of the signature
+	for _, v := range []string{"1b1", "1b2", "1b3"} {
+		for fi, variant := range []string{"error", "empty", "garbage", "truncated", "only-issuer", "other-key", "swapped", "other-key+sha"} {
+			for k := 0; k < 6; k++ {
+				sp := sxgkit.Spec{Version: v, URL: "https://a.example/p?q=1", Method: "GET", Status: 200,
+					ResHeaders: []gen.HeaderKV{{Name: "Content-Type", Values: []string{"text/html"}}},
+					PayloadLen: 40, PayloadTag: 5, RecordSize: 16, Fixture: k % 2, Date: 1_700_000_000, Expires: 1_700_000_000 + 86400,
+					ValidityURL: "https://a.example/v", CertURL: "https://c.example/c"}
+				total++
+				if !prop.One(t, Case{Spec: sp, Mut: Mut{Class: "fetcher", Variant: variant, Fixture: 2 + (fi+k)%3}, Time: "mid", Parsed: k%2 == 1, SigCopies: 1 + k/2}) {
+					return
 				}
 			}
 		}
